@@ -5,6 +5,7 @@ CONSTANTS
   QueriesPerReader = 1
   LockBeforeBump = FALSE
   DropSessions = TRUE
+  EarlyRelease = FALSE
   Emit = FALSE
 PROPERTY Progress
 VIEW View
